@@ -42,6 +42,11 @@ func verifC21(registry map[uint32]func() bin.Object, sample, n int) {
 	in.PutID(id)
 	in.Put(raw)
 	v := registry[id]()
+	// known finding C21-generic-query-nil: the request wrappers with a generic `!X` field
+	// (invokeAfterMsg, invokeWithLayer, initConnection, ...) call Query.Decode on the nil
+	// interface of a zero value: decoding any bytes into one panics.
+	_, generic := v.(interface{ GetQuery() bin.Object })
+	verifrt.Class("C21-generic-query-nil", generic)
 	var err error
 	ok := verifrt.NoPanic(func() { err = v.Decode(in) })
 	verifrt.Assert(ok, "C21.decode.nopanic")
@@ -73,11 +78,11 @@ func verifC21(registry map[uint32]func() bin.Object, sample, n int) {
 }
 
 // VerifC21_tg: a seed-dependent, evenly spread sample of the constructors of the Telegram API
-// schema (tg): 24 of them, 12 arbitrary bytes each (thorough tier only; 64 x 16 bytes ran past 18 minutes with 140000 paths).
+// schema (tg): 64 of them, 12 arbitrary bytes each (thorough tier only; 64 x 16 bytes ran past 18 minutes with 140000 paths).
 func VerifC21_tg() {
 	sample, n := 16, 12
 	if verifrt.Tier() == 1 {
-		sample, n = 24, 12
+		sample, n = 64, 12
 	}
 	verifC21(TypesConstructorMap(), sample, n)
 }
